@@ -251,7 +251,18 @@ def impl_parse(case):
 
 def model_req_parse(case):
     left = _tok.get("parse:" + C.jdump(case), {})
-    return {"op": "batch", "reqs": [{"op": "phenoParse", "lines": case["lines"]}, {"op": "floatTok", "pairs": [p for s in left for p in left[s]]}]}
+    # every token of every data line, for the reader of the model (FloatText.readTok: the correctly rounded value, certified)
+    toks = [t for l in case["lines"] if l and not l[0].startswith("#") for t in l[1:]]
+    return {"op": "batch", "reqs": [{"op": "phenoParse", "lines": case["lines"]}, {"op": "floatTok", "pairs": [p for s in left for p in left[s]]}, {"op": "floatRead", "tokens": toks}]}
+
+
+def _value_bits(v):
+    """bits of what the model's reader returned for a token (decimal string of the bits, inf, -inf, nan)"""
+    if v == "nan":
+        return bits(float("nan"))
+    if v in ("inf", "-inf"):
+        return bits(float(v))
+    return int(v) if v.isdigit() else f"the model's reader has no value for this token ({v})"
 
 
 def model_obs_parse(case, resp):
@@ -259,21 +270,25 @@ def model_obs_parse(case, resp):
     left = _tok.get("parse:" + C.jdump(case), {})
     flat, k, ok = list(resp["resps"][1]["verdicts"]), 0, {}
     for s in left:
-        # a value is accepted for its token when Lean finds the token inside the value's rounding interval (and then inside no other)
-        ok[s] = [int(b) if v in ("reads", "special") else None for (b, tok), v in zip(left[s], flat[k : k + len(left[s])])]
+        # cross-check: Lean finds the value the real reader returned inside the rounding interval of its token (and then inside no other)
+        ok[s] = [v in ("reads", "special") for (b, tok), v in zip(left[s], flat[k : k + len(left[s])])]
         k += len(left[s])
+    # the values of the model's own reader, token by token in file order
+    vals = iter(resp["resps"][2]["values"])
+    by_line = {}
+    for l in case["lines"]:
+        if l and not l[0].startswith("#"):
+            by_line.setdefault(l[0], [next(vals) for _ in l[1:]])
     nan = bits(float("nan"))
     rows = []
     for s, toks in t["rows"]:
-        got = ok.get(s, [])
-        vals = []
+        row = []
         for j, x in enumerate(toks):
-            b = got[j] if j < len(got) else None
-            if b is None:
-                vals.append(f"no correctly rounded reading of {x!r} was returned")
-            else:
-                vals.append(nan if math.isnan(from_bits(b)) else b)  # nan has many bit patterns: compared as the canonical one
-        rows.append([s, vals])
+            b = _value_bits(by_line.get(s, [])[j]) if j < len(by_line.get(s, [])) else "no such cell"
+            if isinstance(b, int) and s in ok and j < len(ok[s]) and not ok[s][j]:
+                b = f"the value returned for {x!r} lies outside its rounding interval"
+            row.append(nan if isinstance(b, int) and math.isnan(from_bits(b)) else b)  # nan has many bit patterns: compared as the canonical one
+        rows.append([s, row])
     return {"names": t["names"], "rows": rows}
 
 
@@ -521,7 +536,7 @@ def oracle_ops(case, obs):
 CHECK = Check(
     id="C15",
     title="Phenotype/covariate files round-trip bit-exactly; table operations are exact",
-    theorems=["C15.parse_render", "C15.bad_rows_skipped_not_shifted", "C15.parsed_row_is_its_line", "C15.leading_comments_ignored", "C15.names_made_unique", "C15.repeated_name_made_unique", "C15.uniqNamesOld_collision_witness", "C15.decimal_reads_as_at_most_one_double", "C15.float_codec_contract", "C15.exact_value_reads_back", "C15.checked_token_reads_back_everywhere", "C15.bits_decode_canonical", "C09R.standardize_mean_zero", "C09R.standardize_var_one"],
+    theorems=["C15.parse_render", "C15.bad_rows_skipped_not_shifted", "C15.parsed_row_is_its_line", "C15.leading_comments_ignored", "C15.names_made_unique", "C15.repeated_name_made_unique", "C15.uniqNamesOld_collision_witness", "C15.decimal_reads_as_at_most_one_double", "C15.float_codec_contract", "C15.exact_value_reads_back", "C15.checked_token_reads_back_everywhere", "C15.bits_decode_canonical", "C15.value_handed_out_is_the_correct_reading", "C09R.standardize_mean_zero", "C09R.standardize_var_one"],
     imports=("HapModel", "HapReal"),
     build_targets=("HapModel", "HapReal"),
     sections=[
@@ -541,7 +556,7 @@ CHECK = Check(
         ),
         Section(
             name="read_handwritten",
-            theorems=["C15.bad_rows_skipped_not_shifted", "C15.parsed_row_is_its_line", "C15.leading_comments_ignored", "C15.decimal_reads_as_at_most_one_double", "C15.checked_token_reads_back_everywhere"],
+            theorems=["C15.bad_rows_skipped_not_shifted", "C15.parsed_row_is_its_line", "C15.leading_comments_ignored", "C15.decimal_reads_as_at_most_one_double", "C15.checked_token_reads_back_everywhere", "C15.value_handed_out_is_the_correct_reading"],
             gen=gen_parse,
             impl=impl_parse,
             model_req=model_req_parse,
@@ -552,7 +567,7 @@ CHECK = Check(
             teardown=teardown,
             nontrivial=lambda c, o: C.jdump(c),
             describe=lambda c, o: "some-rows-skipped" if isinstance(o, dict) and o.get("errors") else "all-rows-numeric",
-            rule="hand-written files with leading comment lines and rows mixing numeric tokens (incl. ' 2.0', '3.', '.5', '+4', 'nan', '-inf') with NA / na / text / empty / malformed cells: the rows read must be exactly the parsable rows, each with its own sample ID and cells, and an error must be logged when something is skipped; a third of the files hold delicate tokens (ties between two doubles, values a hair off a tie, subnormal edges, 17+ digits) and every value the reader returned is judged in Lean against its token (FloatText.checkTok) instead of by calling float() a second time",
+            rule="hand-written files with leading comment lines and rows mixing numeric tokens (incl. ' 2.0', '3.', '.5', '+4', 'nan', '-inf') with NA / na / text / empty / malformed cells: the rows read must be exactly the parsable rows, each with its own sample ID and cells, and an error must be logged when something is skipped; a third of the files hold delicate tokens (ties between two doubles, values a hair off a tie, subnormal edges, 17+ digits) and the values of the model side are computed in Lean from the tokens alone (FloatText.readTok: a candidate by integer division, handed out only after its rounding-interval certificate, which by roundsTo_unique no other double passes) and every value the real reader returned is also judged against its token (FloatText.checkTok)",
         ),
         Section(
             name="table_operations",
